@@ -132,7 +132,14 @@ func c15Matrix(rep *Report, m *model.Client, cfg engine.Config, prefix []engine.
 		var mod string
 		switch object {
 		case "tx":
-			mod = m.Ask("api_tx " + state + " " + method)
+			mm, ms := method, state
+			if strings.HasPrefix(mm, "page-oob") {
+				mm = "page-oob" // the same abstract method with different out-of-range ids
+			}
+			if ms == "ro-while-writer-allocates" {
+				ms = "ro"
+			}
+			mod = m.Ask("api_tx " + ms + " " + mm)
 		case "page":
 			parts := strings.SplitN(state, "/", 2)
 			mod = m.Ask("api_page " + parts[0] + " " + parts[1] + " " + method)
@@ -145,10 +152,9 @@ func c15Matrix(rep *Report, m *model.Client, cfg engine.Config, prefix []engine.
 			return
 		}
 		if impl != mod {
-			kind := "correspondence"
-			if strings.HasPrefix(impl, "panic") {
-				kind = "oracle"
-			}
+			// the matrix is the documented behaviour: a different answer of the implementation on this
+			// (state, method) pair is the failing input itself
+			kind := "oracle"
 			rep.violate(Violation{Kind: kind, Sig: fmt.Sprintf("misuse/%s/%s/%s/%s", object, state, method, firstWord(impl)),
 				Detail: fmt.Sprintf("%s in state %s: %s returns %q, documented/model: %q", object, state, method, impl, mod),
 				Replay: c15Replay{Config: cfg, Prefix: prefix, Object: object, State: state, Method: method, Impl: impl, Model: mod}})
@@ -158,7 +164,7 @@ func c15Matrix(rep *Report, m *model.Client, cfg engine.Config, prefix []engine.
 
 	// ---- Tx matrix
 	for _, st := range []string{"rw", "ro", "done-rw", "done-ro"} {
-		for _, meth := range []string{"commit", "rollback", "close", "alloc", "allocn", "flush", "checkpoint", "page", "page-oob", "page-freed", "rootpage"} {
+		for _, meth := range []string{"commit", "rollback", "close", "alloc", "allocn", "flush", "checkpoint", "page", "page-oob", "page-oob-end", "page-oob-hdr", "page-freed", "rootpage"} {
 			before := stateBefore()
 			tx := makeTx(f, st, r)
 			if meth == "page-freed" && st == "rw" {
@@ -190,6 +196,14 @@ func c15Matrix(rep *Report, m *model.Client, cfg engine.Config, prefix []engine.
 				case "page-oob":
 					_, err := tx.Page(txfile.PageID(1 << 40))
 					return err
+				case "page-oob-end":
+					// the first id past the committed data area
+					_, err := tx.Page(txfile.PageID(txfile.VerifSnapshot(f).DataEnd))
+					return err
+				case "page-oob-hdr":
+					// the two header pages are not data pages
+					_, err := tx.Page(txfile.PageID(r.Intn(2)))
+					return err
 				default:
 					// RootPage only touches a page when a root is set; make sure one is set
 					tx.SetRoot(livePage)
@@ -209,6 +223,42 @@ func c15Matrix(rep *Report, m *model.Client, cfg engine.Config, prefix []engine.
 			}
 		}
 	}
+	// ---- a reader begun while a write transaction has grown the data area: the pages past the committed end
+	// are out of range for it, while the writer is open and after it rolled back
+	func() {
+		endBefore := txfile.VerifSnapshot(f).DataEnd
+		w, err := f.Begin()
+		if err != nil {
+			return
+		}
+		defer w.Close()
+		grown := false
+		for _, n := range []int{64, 16, 4, 1} {
+			if _, err := w.AllocN(n); err == nil && txfile.VerifSnapshot(f).DataEnd > endBefore {
+				grown = true
+				break
+			}
+		}
+		if !grown {
+			rep.count("tx:ro-while-writer-allocates:not-reachable(full file)", 1)
+			return
+		}
+		endNow := txfile.VerifSnapshot(f).DataEnd
+		rd, err := f.BeginReadonly()
+		if err != nil {
+			return
+		}
+		defer rd.Close()
+		probe := func(phase string) {
+			for _, id := range []uint64{endBefore, endBefore + (endNow-endBefore)/2, endNow - 1} {
+				impl := guarded(func() error { _, err := rd.Page(txfile.PageID(id)); return err })
+				check("tx", "ro-while-writer-allocates", "page-oob-uncommitted/"+phase, impl)
+			}
+		}
+		probe("writer-open")
+		w.Rollback()
+		probe("writer-rolled-back")
+	}()
 	// ---- accessors without an error result on a finished transaction: must not panic either
 	for _, st := range []string{"done-rw", "done-ro"} {
 		tx := makeTx(f, st, r)
@@ -328,10 +378,9 @@ func c15Queue(rep *Report, m *model.Client, r *rand.Rand) {
 		rep.count("queue:"+sig+"="+firstWord(impl), 1)
 		rep.nontrivial("queue/" + sig)
 		if impl != mod {
-			kind := "correspondence"
-			if strings.HasPrefix(impl, "panic") {
-				kind = "oracle"
-			}
+			// the matrix is the documented behaviour: a different answer of the implementation on this
+			// (state, method) pair is the failing input itself
+			kind := "oracle"
 			rep.violate(Violation{Kind: kind, Sig: "misuse/queue/" + sig + "/" + firstWord(impl),
 				Detail: fmt.Sprintf("queue %s returns %q, documented/model: %q", sig, impl, mod),
 				Replay: c15Replay{Object: "queue", State: sig, Impl: impl, Model: mod}})
